@@ -182,9 +182,17 @@ def shard_single(rec: Recorder, specs: List[Spec], spec_indices: List[int], spec
         n_values = list(spec.n_values)
         widths = list(spec.widths)
         combos = list(itertools.product(n_values, widths))
+        long_lengths = set()
         if tier == 'quick':
             rng.shuffle(combos)
-            combos = combos[:2] if len(n_values) > 1 else combos[:1]
+            # two of the short lengths, and EVERY long one (n >= 9: loop counters, indices and carries that need more than one
+            # hex / three bits) once, with fewer passes
+            long_combos = []
+            for n in sorted({n for n in n_values if n >= 9}):
+                long_combos.append((n, rng.choice(widths)))
+            long_lengths = {n for n, _ in long_combos}
+            short = [c for c in combos if c[0] not in long_lengths]
+            combos = (short[:2] if len(n_values) > 1 else short[:1]) + long_combos
         for n, w in combos:
             app = None
             if hidden:
@@ -208,6 +216,9 @@ def shard_single(rec: Recorder, specs: List[Spec], spec_indices: List[int], spec
                 continue
             plan, space, exhaustive = single_value_plan(app, variables)
             passes = space if exhaustive else (2500 if tier == 'quick' else 20000)
+            if n in long_lengths and not exhaustive:
+                passes = 300
+                rec.count('long_length_programs')
             mon = rec.program([app], variables, w, init_text(spec.needs, w), passes, plan, rng, f'single:{spec.macro}/{n}', journal,
                               fast_slice=150)
             if mon is not None:
